@@ -15,22 +15,33 @@ from .util import AnalysisError
 CLAIMED = [f"C{n:02d}" for n in range(1, 21) if n != 19]
 
 
+def analyse(prop: str, tier: str, root: str | None = None) -> Report:
+    """Run the rules of one property and return the report (raises AnalysisError)."""
+    mod = importlib.import_module(f"csa.rules.{prop.lower()}")
+    repo = Repo(root)
+    rep = Report(prop, tier)
+    rep.info["repo_digest"] = repo.digest()
+    rep.info["modules_parsed"] = len(repo.modules)
+    rep.info["functions_parsed"] = sum(len(m.functions) for m in repo.modules.values())
+    mod.run(repo, rep, tier)
+    if not rep.items:
+        raise AnalysisError("no obligations were generated")
+    return rep
+
+
 def run_check(prop: str, tier: str, root: str | None = None, quiet: bool = False) -> int:
     seed = int(os.environ.get("VERIF_SEED", "0") or 0)
     try:
-        mod = importlib.import_module(f"csa.rules.{prop.lower()}")
+        importlib.import_module(f"csa.rules.{prop.lower()}")
     except ModuleNotFoundError:
         print(f"ANALYSIS-ERROR property={prop} no rules implemented for this property")
         return 2
     try:
-        repo = Repo(root)
-        rep = Report(prop, tier)
-        rep.info["repo_digest"] = repo.digest()
-        rep.info["modules_parsed"] = len(repo.modules)
-        rep.info["functions_parsed"] = sum(len(m.functions) for m in repo.modules.values())
-        mod.run(repo, rep, tier)
-        if not rep.items:
-            raise AnalysisError("no obligations were generated")
+        rep = analyse(prop, tier, root)
+        if tier == "thorough" and root is None:
+            from .selftest import sensitivity_audit
+
+            rep.info["sensitivity"] = sensitivity_audit(prop)
         return finish(rep, seed)
     except AnalysisError as e:
         print(f"ANALYSIS-ERROR property={prop} {e}")
@@ -67,7 +78,7 @@ def main(argv: list[str] | None = None) -> int:
     if args.cmd == "selftest":
         from .selftest import main as st_main
 
-        return st_main(jobs=args.jobs, only=args.only)
+        return st_main(jobs_n=args.jobs, only=args.only)
     return 2
 
 
